@@ -41,6 +41,30 @@ def loSetPred (heap : List Leftover) (r : Nat) (p : Option (Row × List Row)) : 
   | some x => heap.set r (x.1, p)
   | none => heap
 
+/-- an element of `BuildAssembly.scaffolds`: a reference to an OverlapResult in the store or to a left-over Scaffold object -/
+inductive BuiltRef where
+  | res (sid : Nat)
+  | lo (r : Nat)
+  deriving DecidableEq, Repr
+
+/-- the Scaffold attributes both classes have (`name`, `rows`, `tag`, `haplotype`, `rank`, `original_name`, `original_tags`), read through a reference -/
+def brefView (store : List Res) (heap : List Leftover) : BuiltRef → Scaffold
+  | .res sid => let o := getRes store sid
+    { name := o.name, rows := o.rows, tag := o.tag, haplotype := o.haplotype, rank := o.rank, originalName := o.originalName, originalTags := o.originalTags }
+  | .lo r => (loGet heap r).1
+
+/-- the Scaffold objects `scaffolds_fused_by_name` builds live in an arena -/
+def bsGet (heap : List Scaffold) (r : Nat) : Scaffold := heap.getD r { name := [] }
+def bsSet (heap : List Scaffold) (r : Nat) (f : Scaffold → Scaffold) : List Scaffold :=
+  match heap[r]? with
+  | some x => heap.set r (f x)
+  | none => heap
+/-- `d.setdefault(key, new_object)`: the reference stored under `key` — a new object is allocated at the end of the arena when the key is new -/
+def bsSetDefault {κ : Type} [DecidableEq κ] (d : List (κ × Nat)) (heap : List Scaffold) (k : κ) (v : Scaffold) : List (κ × Nat) × List Scaffold × Nat :=
+  match dGet? d k with
+  | some r => (d, heap, r)
+  | none => (d ++ [(k, heap.length)], heap ++ [v], heap.length)
+
 /-- `BuildAssembly.add_scaffold(result)`: the result now belongs to the assembly being built (the model's `Res.added`) -/
 def markAdded (store : List Res) (sid : Nat) : List Res :=
   AgpTpf.setAt store sid { (store.getD sid default) with added := true }
